@@ -84,7 +84,7 @@ type Trace struct {
 	NEv     int                    `json:"nev"`   // events counted by the measured run
 	NumTab  []NumEnt               `json:"numtab"`
 	Out     []int                  `json:"out"`    // all bytes written to the sink
-	EvCap   bool                   `json:"evcap"` // the recording is incomplete: more than maxRecorded events were delivered
+	EvCap   bool                   `json:"evcap"`  // the recording is incomplete: more than maxRecorded events were delivered
 	StrMut  int                    `json:"strmut"` // strings delivered by value whose bytes changed before the case ended
 	Raw     []int                  `json:"raw"`    // the bytes the encoder itself wrote (Out additionally holds the driver's separators between JSON texts)
 	Extra   map[string]interface{} `json:"extra,omitempty"`
